@@ -1072,7 +1072,8 @@ class CFGBuilder:
                 hf = Frame("try", st, "handler", h, uid)
                 self.frames.append(hf)
                 hn = self.new("handler", h, st)
-                self.g.add_edge(d, hn, "exc")
+                if not (isinstance(h.type, ast.Tuple) and not h.type.elts):  # `except ():` names no class - it catches nothing
+                    self.g.add_edge(d, hn, "exc")
                 hp = self.stmts(h.body, [(hn, "norm")])
                 self.frames.pop()
                 out += hp
